@@ -15,6 +15,7 @@ SKINS = {
     "mnemonic-co": {"prefixes": ("c/", "o/"), "dir": "lib"},
     "quoted-nonascii": {"quote": True},
     "quoted-nonascii-dir": {"quote": True, "dir": "d1/d2"},
+    "quoted-nonascii-space": {"quote": True, "dir": "sp ace"},
     # core.quotepath=false: non-ASCII paths arrive as raw UTF-8
     "raw-utf8": {"names": {1: "alphaZ1Z-é世.rs", 2: "betaZ2Z-üñ.rs", 3: "gammaZ3Z-ß.rs"}, "dir": "répertoire"},
     # directories that look like git's own a/ b/ c/ i/ o/ w/ prefixes
@@ -81,8 +82,10 @@ def run(tier):
         if not stream.relevant(PID, f):
             continue
         sig = f"{f['why']}:{f['wt']}:{f['gt']}:{p.name.split('/')[1]}:{stream.shape(h)[:400]}"
-        V.violation(sig, f"history [{stream.shape(h)[:200]}] under {p.name}: wanted row {f['i']} ({f['wt']}) "
-                    f"but output row {f['j']} is {f['gt']}",
+        what = (f"history [{stream.shape(h)[:200]}] under {p.name}: the renamed binary file of input line {f['i']} is not reported as binary "
+                f"(neither by its header nor by its 'Binary files' line)" if f["why"] == "binary-unreported" else
+                f"history [{stream.shape(h)[:200]}] under {p.name}: wanted row {f['i']} ({f['wt']}) but output row {f['j']} is {f['gt']}")
+        V.violation(sig, what,
                     {"history": h, "config": p.name, "run": r.to_json(), "failure": f})
     V.drift = stream.drift_report(res)
     rc = V.finish()
